@@ -54,6 +54,14 @@ def run(ctx, fx, files, rule="R-MATCHVERIFY", only=None):
                                    re.search(r"SuffixArray::search$|::binary_search_by$", c["f"]) or
                                    (c["f"].rsplit("::", 1)[-1] in ("eq", "ne") and
                                     any(op_local(a) is not None and re.search(r"\[u8\]|Vec<u8>", fn.ty(op_local(a))) for a in c["a"]))]
+                # the comparison may live in a crate-local bool helper (`self.prefix_matches(cand, pos)`)
+                for b, c in fn.calls():
+                    if c.get("loc") and fx.has(c["f"]) and fn.ty(c["d"][0]) == "bool":
+                        hf = Fn(fx.raw(c["f"]))
+                        if any(SLICE_EQ.search(hc["f"]) or (hc["f"].rsplit("::", 1)[-1] in ("eq", "ne") and
+                               any(op_local(a) is not None and re.search(r"\[u8\]|Vec<u8>", hf.ty(op_local(a))) for a in hc["a"]))
+                               for hb, hc in hf.calls()):
+                            slice_eq_blocks.append(b)
                 done = set()
                 # innermost loops first, so that a counter is judged against the loop that advances it
                 for h, body in sorted(loops, key=lambda hb: len(hb[1])):
